@@ -1443,3 +1443,30 @@ Example ex_logs :
   let x := irun (iinit 4 ex_progs) ex_sched in
   xlog x = [(2, 42%Z); (1, 41%Z)] /\ rlog x = [42%Z; 41%Z].
 Proof. vm_compute. split; reflexivity. Qed.
+
+(* ------------------------------------------------------------------ *)
+(* only the receiver is ever inside a receive; at sh_unxt the hd it holds is the
+   current head (only the receiver writes c_head) -- for plain reachability *)
+Lemma uchan_receiver_head :
+  forall (w : nat) (size : Z) (progs : list (list cop)) (s : st),
+  uchan_progs_ok w progs -> reachable M (init size progs) s ->
+  (forall t blk hd p k, stk s t = [CRead (c_nxt hd); FC (KUNxt blk hd p k)] ->
+     t = w /\ cell (mem s) c_head = Zn hd) /\
+  (forall t hd v p k, stk s t = [CWrite c_head v; FC (KUSetHead hd (Z.to_nat v) p k)] -> t = w) /\
+  (forall t blk p k, stk s t = [CRead c_head; FC (KUHead blk p k)] -> t = w).
+Proof.
+  intros w size progs s W R.
+  destruct (reachable_ireach size progs s R) as [x [Rx <-]].
+  destruct (ireach_inv w progs size x W Rx) as (_ & _ & G).
+  assert (K : forall t, recv_ph (phs x t) = true -> t = w).
+  { intros t H. destruct (Nat.eq_dec t w) as [|N]; auto.
+    destruct (g_recv w progs x G t N) as [E _]. congruence. }
+  split; [|split].
+  - intros t blk hd p k E.
+    assert (Ph : phs x t = PhNxt hd p) by (unfold phs; rewrite E; reflexivity).
+    split; [apply K; rewrite Ph; reflexivity|].
+    pose proof (g_loc w progs x G t) as L. rewrite Ph in L. cbn in L. subst hd.
+    apply (g_head w progs x G).
+  - intros t hd v p k E. apply K. unfold phs. rewrite E. reflexivity.
+  - intros t blk p k E. apply K. unfold phs. rewrite E. reflexivity.
+Qed.
